@@ -9,4 +9,4 @@ cd /verif
 VERIF_REPO=$S/repo flock /verif/.build/sweep.lock ./check $p --tier $tier | grep -v KNOWN | tail -1 | sed "s/^/$i: /"
 grep -h "^# class" replays/$p-$tier-1.$h.case 2>/dev/null | cut -c1-200 | head -2
 grep -v "^warning\|^Hint\|apply\]\|^Note\|^$\|^⚠\|^  \|^trace\|^✔" replays/$p-$tier-1.$h.broken.txt 2>/dev/null | head -8
-rm -rf $S; git checkout -- lean/IpcHub/Gen 2>/dev/null
+rm -rf $S
